@@ -102,9 +102,13 @@ package limit
 //@ func NewTokenLimiter
 //@   prop C08
 //@   opaque Sprintf
-//@   requires rate > 0
+//@   requires rate >= 0
+//@   observe Rate = rate
+//@   replay limit_rescue_rate
+//@   replay-assume rate <= 1000000000
 //@   ensures [fields] result != nil && result.rate == rate && result.burst == burst && result.store == store && result.redisAlive == 1 && !result.monitorStarted && result.tokenKey == ret(Sprintf, 0, 1) && result.timestampKey == ret(Sprintf, 0, 2)
-//@   ensures [rescue-bucket-same-rate-and-burst] calls(xrate.NewLimiter) == 1 && arg(xrate.NewLimiter, 1) == burst && arg(xrate.NewLimiter, 0) == ret(xrate.Every) && arg(xrate.Every, 0) == 1000000000 / rate && result.rescueLimiter == ret(xrate.NewLimiter)
+// the same rate: `rate` events per second exactly (an interval rounded to whole nanoseconds would refill faster)
+//@   ensures [rescue-bucket-same-rate-and-burst] calls(xrate.NewLimiter) == 1 && arg(xrate.NewLimiter, 1) == burst && arg(xrate.NewLimiter, 0) == real(rate) && result.rescueLimiter == ret(xrate.NewLimiter)
 // The public forms all go through reserveN with the caller's time and count.
 //@ func (*TokenLimiter).AllowN
 //@   prop C08
